@@ -949,6 +949,16 @@ fn normalize_options<'a>(
                     .iter()
                     .flat_map(|o| matches.indices_of(o).and_then(|mut v| v.next_back()))
                     .max();
+                // `-n 1` after a `-I` that is still in force does not conflict
+                // with it (as above), whatever was overridden before.
+                let args_index = if options.max_args == Some(1)
+                    && args_index > replace_index
+                    && replace_index > lines_index
+                {
+                    None
+                } else {
+                    args_index
+                };
                 if lines_index > args_index && lines_index > replace_index {
                     (None, options.max_lines, &None)
                 } else if args_index > lines_index && args_index > replace_index {
